@@ -1,6 +1,7 @@
 import DoviModel.Model.Generate
 import DoviModel.Proofs.EditGenProof
 import DoviModel.Proofs.GenerateEntryProof
+import DoviModel.Gen.SourceRules
 /-! # C10 — generator output matches its config -/
 namespace Dovi.C10
 open Dovi Dovi.Gen
@@ -616,5 +617,18 @@ example : ∃ out, generate { length := 4 } none none = .ok out ∧ out.length =
 /-- `length` and shots disagree / neither given: errors -/
 example : generate { exCfg with length := 4 } none none = .error := by decide
 example : generate {} none none = .error := by decide
+
+
+/-- **source tie** (Gen/SourceRules.lean is regenerated from /repo on every run): `clamp_values_int` of level1.rs —
+its three `clamp` calls and the limits `L1_MIN_PQ_MAX_VALUE`, `L1_MAX_PQ_MIN_VALUE`, `L1_MAX_PQ_MAX_VALUE`,
+`L1_AVG_PQ_MIN_VALUE(_CMV40)` as they stand in the source now — is the model's `clampL1`, for every block -/
+theorem source_l1_clamp_agrees (cmv40 : Bool) (b : Block) :
+    clampL1 cmv40 b =
+      (if b.level == 1 then
+        let r := Src.clampL1 cmv40 (b.vals.getD 0 0) (b.vals.getD 1 0) (b.vals.getD 2 0)
+        { b with vals := [r.1, r.2.1, r.2.2] }
+      else b) := by
+  unfold clampL1 Src.clampL1
+  split <;> simp
 
 end Dovi.C10
